@@ -243,11 +243,24 @@ func (w *Worker) runPath(st *State) {
 		f.idx++
 		st.instrs++
 		if st.instrs > maxI {
-			j.inconclusive(fmt.Sprintf("instruction budget %d exhausted in %s", maxI, f.fn.String()))
-			w.endPath("budget")
+			w.exhausted(st, fmt.Sprintf("instruction budget %d exhausted in %s", maxI, f.fn.String()))
 		}
 		w.step(st, f, ins)
 	}
+}
+
+// exhausted: a loop of the code under test did not finish within the fuel. After a diagnostic
+// has been written this is the "finishes in bounded time" clause of C06 failing (confirmed
+// natively by a run that does not terminate); otherwise the bound is too small: inconclusive.
+func (w *Worker) exhausted(st *State, msg string) {
+	for _, ev := range st.trace {
+		if ev.Kind == EvStderr {
+			w.report(st, "terminates-after-diagnostic", "assert", mkBool(true))
+			w.endPath("nontermination")
+		}
+	}
+	w.job.inconclusive(msg)
+	w.endPath("fuel")
 }
 
 // ---- feasibility -----------------------------------------------------------------------
@@ -734,8 +747,7 @@ func (w *Worker) gotoSucc(st *State, f *Frame, i int) {
 		fuel = 20000
 	}
 	if f.visits[f.blk.Index] > fuel {
-		w.job.inconclusive(fmt.Sprintf("loop fuel %d exhausted at %s block %d", fuel, f.fn.String(), f.blk.Index))
-		w.endPath("fuel")
+		w.exhausted(st, fmt.Sprintf("loop fuel %d exhausted at %s block %d", fuel, f.fn.String(), f.blk.Index))
 	}
 }
 
